@@ -1601,6 +1601,9 @@ impl<K: KeyT, V: ValT, const N: usize> Sys for MapSys<K, V, N> {
                     let pm = if pre_len >= N && o.is_insertion() { C03 } else { o.base_props() };
                     self.exercise(&mut b.bx, &mut b.model, &b.probes, cx, &mut b.leaked, pm);
                 }
+                if pre_len > 0 || after != Some(before) {
+                    cx.nontrivial += 1;
+                }
                 if pre_len == 0 {
                     cx.class("state:empty");
                 }
